@@ -280,9 +280,8 @@ def gateH : Handler := fun inp impl => do
   return ({ model := m, agree := m == implCore, spec := spec,
             nontrivial := !rules.isEmpty || getStrD inp "scheme" != "", tag := tag } : Verdict).toJson
 
-/-- c12.grpc — the gRPC proxy path: lookup, access check on the peer of the call, handler. The path has no
-authentication step (the model follows the code; the specification does not: a route naming a scheme must not
-be served without credentials — recorded finding `grpc-unauthorized`). The peer is the client's socket address. -/
+/-- c12.grpc — the gRPC proxy path: lookup, access check on the peer of the call, the route's auth scheme on the
+call's `authorization` metadata, handler. The peer is the client's socket address. -/
 def grpcH : Handler := fun inp impl => do
   let allow := getStrD inp "allow"
   let deny := getStrD inp "deny"
@@ -292,7 +291,8 @@ def grpcH : Handler := fun inp impl => do
   let (rules, _) := processAccessRules goParsers allow.toList deny.toList
   let ip := (splitHostPort peer.toList).bind (fun h => parseIP (stripZone h))
   let denied := accessDeniedTCP rules (.addr ip)
-  let (reply, contacted) := runGate { found := true, denied := denied, authorized := true } [.lookup, .access, .upstream] false
+  let authOk ← authModel inp
+  let (reply, contacted) := runGate { found := true, denied := denied, authorized := authOk } [.lookup, .access, .auth, .upstream] false
   let code : String := match reply with
     | .forbidden => "PermissionDenied"
     | .noRoute => "NotFound"
@@ -302,11 +302,19 @@ def grpcH : Handler := fun inp impl => do
   let m := Json.mkObj [("forwarded", contacted), ("code", code)]
   let implCore := Json.mkObj [("forwarded", decide (hits > 0)), ("code", getStrD impl "code")]
   let ref := (impl.getObjVal? "ref").toOption.getD Json.null
-  -- spec: the upstream is touched only for a peer the reference admits and a route without auth=;
-  -- a refusal leaves it untouched
-  let spec := (hits == 0 || (specDecision ref none (some false) && scheme == ""))
+  -- spec, stated without the model's gate: the upstream is touched only for a peer the reference admits and,
+  -- on a route naming a scheme, a registered scheme and a stored user/password pair; a refusal leaves it untouched
+  let reg ← strList ((inp.getObjVal? "registered").toOption.getD Json.null)
+  let secrets := secretsOf ((inp.getObjVal? "secrets").toOption.getD Json.null)
+  let cred := credOf ((inp.getObjVal? "cred").toOption.getD Json.null)
+  let credGood := scheme == "" || (reg.contains scheme.toList &&
+    (match cred with | some (u, p) => secrets.any (fun (u', p') => u' == u && p' == p) | none => false))
+  let spec := (hits == 0 || (specDecision ref none (some false) && credGood))
     && (getStrD impl "code" == "OK" || hits == 0)
-  let tag := if denied then "grpc-denied-by-rules" else if scheme != "" then "grpc-unauthorized" else "grpc-admitted"
+  let tag := if denied then "grpc-denied-by-rules"
+    else if scheme == "" then "grpc-admitted"
+    else if !reg.contains scheme.toList then "grpc-unknown-scheme"
+    else match cred with | none => "grpc-nocred" | some _ => if authOk then "grpc-authorized" else "grpc-badcred"
   return ({ model := m, agree := m == implCore, spec := spec,
             nontrivial := !rules.isEmpty || scheme != "", tag := tag } : Verdict).toJson
 
